@@ -70,4 +70,5 @@ def run(chk):
     c10.rule_line(chk, prefix="C11")
     c09.rule_never_early(chk, prefix="C11")
     c09.rule_tail(chk, prefix="C11")
+    c09.rule_upward(chk)        # every started action appears with the messages logged so far: ancestors are refreshed on every insertion
     c09.rule_add_dispatch(chk)  # an unfinished action must be recognised as a started action, whatever its type
